@@ -1,204 +1,407 @@
-// probe
-use serde::Deserialize;
-use serde_saphyr::localizer::Localizer;
-use serde_saphyr::{Location, MessageFormatter, RenderOptions, SnippetMode, Spanned};
-use std::borrow::Cow;
+//! C18 — validating entry points agree with the plain ones and locate every
+//! failed field.
+//!
+//! Metamorphic / differential oracle on the real code. A schema-driven generator
+//! writes documents for a fixed family of validated types (nested structs, Vec
+//! of structs, nested Vec, Option, camelCase / kebab-case renames; values given
+//! directly, through scalar aliases, through aliased structs / lists, through
+//! merges incl. merge lists and partial sources) and chooses the set of violated
+//! constraints. For both validation crates:
+//!   * no violation  => every `*_valid` / `*_validate` entry point returns the
+//!     value of the plain entry point of the same kind;
+//!   * violations    => the error is ValidationError / ValidatorError, the set of
+//!     reported paths (validation crate's report inside the error, plain
+//!     rendering, snippet rendering) equals the chosen set, and for each path the
+//!     (use site, definition site) obtained through a recording `Localizer`,
+//!     `Error::locations()`, `Error::location()` and the `line N column M` text
+//!     equal `referenced` / `defined` of the same field in a mirror parse whose
+//!     validated fields are wrapped in `Spanned`;
+//!   * streams       => k failing documents give ValidationErrors / ValidatorErrors
+//!     with k entries (each checked as above); the iterator yields one item per
+//!     document, `Err` for each failing one, and keeps going.
+
+mod docgen;
+mod obsv;
+mod oracle;
+mod types;
+
+use docgen::{Arr, Forced, Gen, GenDoc, Kit, Params, shape_leaves};
+use oracle::{Crate, Ctx, Garde, SingleCase, StreamCase, Validator, check_single, check_stream};
+use serde_json::{Value as J, json};
 use std::cell::RefCell;
+use std::collections::{BTreeMap, BTreeSet};
+use types::norm;
+use vcore::reftree::{self, render_checked};
+use vcore::rng::{Rng, fnv_parts};
+use vcore::run::{Finish, Run, Tier, par_range};
+use vcore::ydoc::RenderOpts;
 
-#[derive(Debug, Deserialize, garde::Validate, PartialEq)]
-#[serde(rename_all = "camelCase")]
-struct GRoot {
-    #[garde(length(min = 2))]
-    user_name: String,
-    #[garde(range(min = 1, max = 100))]
-    max_count: i64,
-    #[garde(dive)]
-    inner_cfg: GInner,
-    #[garde(dive)]
-    #[serde(default)]
-    item_list: Vec<GItem>,
-}
-#[derive(Debug, Deserialize, garde::Validate, PartialEq)]
-#[serde(rename_all = "kebab-case")]
-struct GInner {
-    #[garde(length(min = 2))]
-    host_name: String,
-    #[garde(range(min = 1))]
-    port_no: i64,
-}
-#[derive(Debug, Deserialize, garde::Validate, PartialEq)]
-#[serde(rename_all = "camelCase")]
-struct GItem {
-    #[garde(length(min = 2))]
-    item_name: String,
-    #[garde(range(min = 1))]
-    qty: i64,
+struct Built {
+    doc: String,
+    viol: BTreeSet<String>,
+    decoys: BTreeMap<String, String>,
+    arrivals: BTreeMap<String, Arr>,
+    intended: J,
+    indirect: bool,
 }
 
-mod vv {
-use serde::Deserialize;
-use validator::Validate;
-#[derive(Debug, Deserialize, validator::Validate, PartialEq)]
-#[serde(rename_all = "camelCase")]
-pub struct VRoot {
-    #[validate(length(min = 2))]
-    pub user_name: String,
-    #[validate(range(min = 1, max = 100))]
-    max_count: i64,
-    #[validate(nested)]
-    inner_cfg: VInner,
-    #[validate(nested)]
-    #[serde(default)]
-    item_list: Vec<VItem>,
-}
-#[derive(Debug, Deserialize, validator::Validate, PartialEq)]
-#[serde(rename_all = "kebab-case")]
-pub struct VInner {
-    #[validate(length(min = 2))]
-    host_name: String,
-    #[validate(range(min = 1))]
-    port_no: i64,
-}
-#[derive(Debug, Deserialize, validator::Validate, PartialEq)]
-#[serde(rename_all = "camelCase")]
-pub struct VItem {
-    #[validate(length(min = 2))]
-    item_name: String,
-    #[validate(range(min = 1))]
-    qty: i64,
+fn build(run: &Run, g: GenDoc, ro: &RenderOpts) -> Option<Built> {
+    let Some((doc, _)) = render_checked(&g.node, ro) else {
+        run.inconclusive("generator-invalid: document not parsed as intended by the raw parser");
+        return None;
+    };
+    let viol = g.leaves.iter().filter(|l| !l.valid).map(|l| norm(&l.path)).collect();
+    let arrivals: BTreeMap<String, Arr> = g.leaves.iter().map(|l| (norm(&l.path), l.arr)).collect();
+    let indirect = g.leaves.iter().any(|l| l.arr != Arr::Direct);
+    let decoys = g.decoys.iter().map(|(p, c)| (norm(p), c.to_string())).collect();
+    Some(Built { doc, viol, decoys, arrivals, intended: g.intended, indirect })
 }
 
-}
-use vv::*;
-#[derive(Debug, Deserialize)]
-#[serde(rename_all = "camelCase")]
-struct MRoot {
-    user_name: Spanned<String>,
-    max_count: Spanned<i64>,
-    inner_cfg: MInner,
-    #[serde(default)]
-    item_list: Vec<MItem>,
-}
-#[derive(Debug, Deserialize)]
-#[serde(rename_all = "kebab-case")]
-struct MInner {
-    host_name: Spanned<String>,
-    port_no: Spanned<i64>,
-}
-#[derive(Debug, Deserialize)]
-#[serde(rename_all = "camelCase")]
-struct MItem {
-    item_name: Spanned<String>,
-    qty: Spanned<i64>,
+fn case_json(b: &Built) -> J {
+    json!({
+        "kind": "single",
+        "doc": b.doc,
+        "viol": b.viol,
+        "decoys": b.decoys,
+        "arrivals": b.arrivals.iter().map(|(k, v)| (k.clone(), v.name())).collect::<BTreeMap<_, _>>(),
+    })
 }
 
-#[derive(Default)]
-struct Rec {
-    log: RefCell<Vec<String>>,
-}
-fn l(loc: Location) -> String {
-    format!("{}:{}@{}+{}", loc.line(), loc.column(), loc.span().offset(), loc.span().len())
-}
-impl Localizer for Rec {
-    fn attach_location<'a>(&self, base: Cow<'a, str>, loc: Location) -> Cow<'a, str> {
-        self.log.borrow_mut().push(format!("attach({})", l(loc)));
-        Cow::Owned(format!("{base} AT {}", l(loc)))
-    }
-    fn validation_issue_line(&self, p: &str, e: &str, loc: Option<Location>) -> String {
-        self.log.borrow_mut().push(format!("issue_line({p}|{e}|{:?})", loc.map(l)));
-        format!("ISSUE {p} {e}")
-    }
-    fn validation_base_message(&self, e: &str, p: &str) -> String {
-        self.log.borrow_mut().push(format!("base({p}|{e})"));
-        format!("BASE {p} {e}")
-    }
-    fn value_comes_from_the_anchor(&self, d: Location) -> String {
-        self.log.borrow_mut().push(format!("comes_from({})", l(d)));
-        format!("FROM {}", l(d))
-    }
-    fn snippet_location_prefix(&self, loc: Location) -> String {
-        self.log.borrow_mut().push(format!("prefix({})", l(loc)));
-        format!("P{}", l(loc))
-    }
-    fn defined_here(&self) -> Cow<'static, str> {
-        self.log.borrow_mut().push("defined_here".into());
-        Cow::Borrowed("(defined here)")
-    }
-    fn invalid_here(&self, base: &str) -> String {
-        self.log.borrow_mut().push("invalid_here".into());
-        format!("invalid here, {base}")
-    }
-}
-struct F<'a>(&'a Rec);
-impl MessageFormatter for F<'_> {
-    fn localizer(&self) -> &dyn Localizer {
-        self.0
-    }
-    fn format_message<'a>(&self, err: &'a serde_saphyr::Error) -> Cow<'a, str> {
-        serde_saphyr::DefaultMessageFormatter.with_localizer(self.0).format_message(err)
-    }
-}
-
-fn show(e: &serde_saphyr::Error) {
-    println!("--- kind={} locations={:?}", vcore::errs::kind(e), e.locations().map(|x| (l(x.reference_location), l(x.defined_location))));
-    println!("{e}");
-    for mode in [SnippetMode::Auto, SnippetMode::Off] {
-        let rec = Rec::default();
-        let f = F(&rec);
-        let mut ro = RenderOptions::new(&f);
-        ro.snippets = mode;
-        let s = e.render_with_options(ro);
-        println!("  mode={mode:?} log={:?}", rec.log.borrow());
-        println!("  text={s:?}");
-    }
-    match e.without_snippet() {
-        serde_saphyr::Error::ValidationError { report, .. } => {
-            for (p, er) in report.iter() {
-                println!("  garde path={p} msg={er}");
+fn run_single(run: &Run, b: &Built, chunk: usize, full: bool, crates: (bool, bool), only_ov: Option<oracle::OptVar>) {
+    let cj = || case_json(b);
+    let sc = SingleCase { doc: &b.doc, viol: &b.viol, decoys: &b.decoys, arrivals: &b.arrivals, intended: Some(&b.intended), chunk, only_ov };
+    fn one<C: Crate>(run: &Run, b: &Built, sc: &SingleCase, cj: &dyn Fn() -> J, full: bool) {
+        let cx = Ctx { run, st: RefCell::new(BTreeMap::new()), crate_name: C::NAME, case: cj, full };
+        let ok = check_single::<C>(&cx, sc);
+        if ok {
+            cx.c("cases/single");
+            if !b.viol.is_empty() || b.indirect {
+                run.nontrivial(fnv_parts(&[b.doc.as_bytes(), C::NAME.as_bytes()]));
+            }
+            if b.viol.is_empty() {
+                cx.c("cases/single/no-violation");
+            } else {
+                cx.c("cases/single/with-violations");
+            }
+            if b.indirect {
+                cx.c("cases/single/value-through-alias-or-merge");
             }
         }
-        serde_saphyr::Error::ValidatorError { errors, .. } => {
-            println!("  validator errors={errors:?}");
+        cx.flush();
+    }
+    if crates.0 {
+        one::<Garde>(run, b, &sc, &cj, full);
+    }
+    if crates.1 {
+        one::<Validator>(run, b, &sc, &cj, full);
+    }
+}
+
+struct StreamBuilt {
+    text: String,
+    viols: Vec<BTreeSet<String>>,
+    arrivals: Vec<BTreeMap<String, Arr>>,
+}
+
+fn run_stream(run: &Run, s: &StreamBuilt, chunk: usize, crates: (bool, bool)) {
+    let cj = || {
+        json!({
+            "kind": "stream",
+            "text": s.text,
+            "viols": s.viols,
+            "arrivals": s.arrivals.iter().map(|a| a.iter().map(|(k, v)| (k.clone(), v.name())).collect::<BTreeMap<_, _>>()).collect::<Vec<_>>(),
+        })
+    };
+    let sc = StreamCase { text: &s.text, viols: &s.viols, arrivals: &s.arrivals, chunk };
+    fn one<C: Crate>(run: &Run, s: &StreamBuilt, sc: &StreamCase, cj: &dyn Fn() -> J) {
+        let cx = Ctx { run, st: RefCell::new(BTreeMap::new()), crate_name: C::NAME, case: cj, full: true };
+        if check_stream::<C>(&cx, sc) {
+            cx.c("cases/stream");
+            let failing = s.viols.iter().filter(|v| !v.is_empty()).count();
+            if failing > 0 {
+                run.nontrivial(fnv_parts(&[s.text.as_bytes(), C::NAME.as_bytes(), b"stream"]));
+            }
+            cx.c(match failing {
+                0 => "cases/stream/failing-docs=0",
+                1 => "cases/stream/failing-docs=1",
+                2 => "cases/stream/failing-docs=2",
+                _ => "cases/stream/failing-docs>=3",
+            });
         }
-        _ => {}
+        cx.flush();
+    }
+    if crates.0 {
+        one::<Garde>(run, s, &sc, &cj);
+    }
+    if crates.1 {
+        one::<Validator>(run, s, &sc, &cj);
+    }
+}
+
+fn random_params(rng: &mut Rng) -> Params {
+    let style = rng.below(6);
+    let mut p = Params {
+        p_salias: *rng.pick(&[0usize, 2, 4]),
+        p_ralias: *rng.pick(&[0usize, 2, 3]),
+        p_merge: *rng.pick(&[0usize, 2, 3]),
+        p_anchor: *rng.pick(&[0usize, 2, 4]),
+        p_flow: *rng.pick(&[0usize, 2, 4, 8]),
+        p_invalid: *rng.pick(&[0usize, 1, 2, 4]),
+        p_decoy: if rng.chance(1, 5) { 3 } else { 0 },
+        shuffle: rng.bool(),
+        kit: if rng.chance(2, 3) { Kit::Random } else { Kit::None },
+    };
+    // Decoy keys only in alias-free documents: an anchored mapping carries its decoy key to every
+    // alias / merge use, which the per-path decoy bookkeeping does not follow.
+    if style == 0 || p.p_decoy > 0 {
+        p = Params { shuffle: p.shuffle, p_flow: p.p_flow, p_invalid: p.p_invalid.max(1), p_decoy: p.p_decoy, ..Params::DIRECT };
+    }
+    p
+}
+
+fn random_ro(rng: &mut Rng) -> RenderOpts {
+    RenderOpts { indent: *rng.pick(&[2usize, 2, 3, 4]), brk: "\n", compact: rng.bool() }
+}
+
+fn random_single(run: &Run, rng: &mut Rng) -> Option<Built> {
+    let pr = random_params(rng);
+    let ro = random_ro(rng);
+    let g = Gen::new(rng, pr, None).gen_root();
+    build(run, g, &ro)
+}
+
+/// Forced-mode templates of the exhaustive part.
+fn template(t: usize) -> (Params, &'static str) {
+    let d = Params::DIRECT;
+    match t {
+        0 => (d, "direct-block"),
+        1 => (Params { p_flow: 8, ..d }, "direct-flow"),
+        2 => (Params { p_salias: 8, kit: Kit::Scalars, ..d }, "every-leaf-through-scalar-alias"),
+        3 => (Params { p_merge: 8, kit: Kit::ValidRecs, ..d }, "merge-from-valid-records"),
+        4 => (Params { p_merge: 8, kit: Kit::InvalidRecs, ..d }, "merge-from-invalid-records"),
+        5 => (Params { p_ralias: 4, p_merge: 2, p_salias: 2, p_anchor: 4, shuffle: true, kit: Kit::Random, ..d }, "mixed-aliases-fixed-stream"),
+        _ => unreachable!(),
+    }
+}
+
+fn shape(idx: usize) -> BTreeMap<String, usize> {
+    let mut c = BTreeMap::new();
+    match idx {
+        0 => {
+            c.insert("item_list".to_string(), 1);
+            c.insert("item_list[0].sub_items".to_string(), 1);
+            c.insert("opt_leaf".to_string(), 1);
+        }
+        _ => {
+            c.insert("item_list".to_string(), 2);
+            c.insert("item_list[0].sub_items".to_string(), 0);
+            c.insert("item_list[1].sub_items".to_string(), 2);
+            c.insert("opt_leaf".to_string(), 0);
+        }
+    }
+    c
+}
+
+fn replay(run: &Run, rep: &J) {
+    let case = &rep["case"];
+    let crates = match case["crate"].as_str() {
+        Some("garde") => (true, false),
+        Some("validator") => (false, true),
+        _ => (true, true),
+    };
+    let set = |v: &J| -> BTreeSet<String> { v.as_array().map(|a| a.iter().filter_map(|x| x.as_str().map(String::from)).collect()).unwrap_or_default() };
+    let arrs = |v: &J| -> BTreeMap<String, Arr> {
+        v.as_object().map(|o| o.iter().map(|(k, x)| (k.clone(), Arr::from_name(x.as_str().unwrap_or("")))).collect()).unwrap_or_default()
+    };
+    if case["kind"] == "stream" {
+        let s = StreamBuilt {
+            text: case["text"].as_str().unwrap_or("").to_string(),
+            viols: case["viols"].as_array().map(|a| a.iter().map(set).collect()).unwrap_or_default(),
+            arrivals: case["arrivals"].as_array().map(|a| a.iter().map(arrs).collect()).unwrap_or_default(),
+        };
+        run_stream(run, &s, 7, crates);
+    } else {
+        let doc = case["doc"].as_str().unwrap_or("").to_string();
+        let viol = set(&case["viol"]);
+        let decoys = case["decoys"].as_object().map(|o| o.iter().map(|(k, x)| (k.clone(), x.as_str().unwrap_or("").to_string())).collect()).unwrap_or_default();
+        let arrivals = arrs(&case["arrivals"]);
+        let intended = serde_saphyr::from_str::<types::g::Root>(&doc).ok().and_then(|r| serde_json::to_value(&r).ok()).unwrap_or(J::Null);
+        let indirect = arrivals.values().any(|a| *a != Arr::Direct);
+        let b = Built { doc, viol, decoys, arrivals, intended, indirect };
+        run_single(run, &b, 7, true, crates, None);
     }
 }
 
 fn main() {
-    let docs = [
-        "userName: &s x\nmaxCount: 0\ninnerCfg: &in\n  host-name: *s\n  port-no: 0\nitemList:\n  - itemName: *s\n    qty: 5\n  - &it\n    itemName: ab\n    qty: 0\n  - *it\n  - <<: *it\n    itemName: q\n",
-        "defs:\n  in: &in {host-name: h, port-no: 0}\nuserName: ab\nmaxCount: 5\ninnerCfg:\n  <<: *in\n  port-no: 7\n",
-        "defs:\n  in: &in {host-name: h, port-no: 0}\nuserName: ab\nmaxCount: 5\ninnerCfg: *in\n",
-        "user_name: zz\nuserName: a\nmaxCount: 5\ninnerCfg: {host-name: hh, port-no: 1}\n",
-        "user-name: zz\nuserName: a\nmaxCount: 5\ninnerCfg: {host-name: hh, port-no: 1}\n",
-    ];
-    for d in docs {
-        println!("================\n{d}");
-        match serde_saphyr::from_str_valid::<GRoot>(d) {
-            Ok(v) => println!("garde ok {v:?}"),
-            Err(e) => show(&e),
-        }
-        match serde_saphyr::from_str_validate::<VRoot>(d) {
-            Ok(v) => println!("validator ok {v:?}"),
-            Err(e) => show(&e),
-        }
-        match serde_saphyr::from_reader_valid::<_, GRoot>(d.as_bytes()) {
-            Ok(v) => println!("garde reader ok {v:?}"),
-            Err(e) => show(&e),
-        }
-        match serde_saphyr::from_str::<MRoot>(d) {
-            Ok(m) => {
-                let p = |n: &str, r: Location, d: Location| println!("  mirror {n}: ref={} def={}", l(r), l(d));
-                p("userName", m.user_name.referenced, m.user_name.defined);
-                p("maxCount", m.max_count.referenced, m.max_count.defined);
-                p("innerCfg.host-name", m.inner_cfg.host_name.referenced, m.inner_cfg.host_name.defined);
-                p("innerCfg.port-no", m.inner_cfg.port_no.referenced, m.inner_cfg.port_no.defined);
-                for (i, it) in m.item_list.iter().enumerate() {
-                    p(&format!("itemList[{i}].itemName"), it.item_name.referenced, it.item_name.defined);
-                    p(&format!("itemList[{i}].qty"), it.qty.referenced, it.qty.defined);
+    let run = Run::from_args("C18");
+    if let Some(rep) = run.is_replay() {
+        let rep = rep.clone();
+        replay(&run, &rep);
+        run.finish(Finish::new("replay"));
+    }
+    let tier = run.tier;
+    let both = (true, true);
+
+    // ---- exhaustive: every subset of violated leaves of a fixed shape x delivery templates
+    let n_shapes = tier.pick(1, 2);
+    let n_templates = 6;
+    let mut scope = Vec::new();
+    for si in 0..n_shapes {
+        let counts = shape(si);
+        let leaves = shape_leaves(&counts);
+        let n = leaves.len();
+        scope.push(format!("shape {si}: {n} validated leaves"));
+        let total = (1usize << n) * n_templates;
+        par_range(total, |idx| {
+            let t = idx % n_templates;
+            let mask = idx / n_templates;
+            let viol: BTreeSet<String> = leaves.iter().enumerate().filter(|(i, _)| mask >> i & 1 == 1).map(|(_, p)| p.clone()).collect();
+            let fc = Forced { viol, counts: counts.clone() };
+            let (pr, tname) = template(t);
+            // fixed stream: the exhaustive part does not depend on VERIF_SEED
+            let mut rng = Rng::stream(0xC18, idx as u64);
+            let g = Gen::new(&mut rng, pr, Some(&fc)).gen_root();
+            let ro = RenderOpts { indent: 2, brk: "\n", compact: t != 1 };
+            let Some(b) = build(&run, g, &ro) else { return };
+            let want: BTreeSet<String> = fc.viol.iter().map(|p| norm(p)).collect();
+            if b.viol != want {
+                run.inconclusive("generator: forced violated set not realised");
+                return;
+            }
+            run.count(&format!("exhaustive_docs/{tname}"), 1);
+            // heavy rendering checks on a deterministic quarter of the space in quick
+            let full = tier == Tier::Thorough || mask % 4 == t % 4;
+            let only = if tier == Tier::Thorough { None } else { Some(oracle::OptVar::ALL[(mask + t) % 4]) };
+            run_single(&run, &b, 1 + idx % 13, full, both, only);
+            if idx % 20011 == 0 {
+                run.sample(|| json!({"template": tname, "doc": b.doc, "violated": b.viol}));
+            }
+        });
+    }
+
+    // ---- directed: decoy keys (unknown keys whose spelling collides with a validated field)
+    {
+        let keys = [
+            ("userName", "user_name", &["user-name", "UserName", "username", "USER_NAME", "user_name"][..], &["tie", "tie", "late", "early", "early"][..]),
+            ("maxCount", "max_count", &["max-count", "maxcount", "max_count", "MAXCOUNT"][..], &["tie", "late", "early", "late"][..]),
+        ];
+        for (yaml, rust, decs, classes) in keys {
+            for (d, class) in decs.iter().zip(classes.iter()) {
+                for before in [true, false] {
+                    let bad = if yaml == "userName" { "x" } else { "0" };
+                    let dv = if yaml == "userName" { "zz" } else { "7" };
+                    let other = if yaml == "userName" { "maxCount: 5" } else { "userName: ab" };
+                    let (a, b2) = if before { (format!("{d}: {dv}"), format!("{yaml}: {bad}")) } else { (format!("{yaml}: {bad}"), format!("{d}: {dv}")) };
+                    let doc = format!("{a}\n{b2}\n{other}\nlevel: 3\ninnerCfg:\n  host-name: hh\n  port-no: 1\n  leaf-node: {{tag: ab, weight: 1}}\n");
+                    if reftree::parse_one(&doc).is_none() {
+                        run.inconclusive("generator-invalid: directed decoy document");
+                        continue;
+                    }
+                    let intended = match serde_saphyr::from_str::<types::v::Root>(&doc) {
+                        Ok(r) => serde_json::to_value(&r).unwrap(),
+                        Err(_) => {
+                            run.inconclusive("model: directed decoy document rejected");
+                            continue;
+                        }
+                    };
+                    let b = Built {
+                        doc,
+                        viol: [norm(rust)].into_iter().collect(),
+                        decoys: [(norm(rust), class.to_string())].into_iter().collect(),
+                        arrivals: BTreeMap::new(),
+                        intended,
+                        indirect: false,
+                    };
+                    run.count(&format!("directed_decoy_docs/{class}"), 1);
+                    run_single(&run, &b, 5, true, both, None);
                 }
             }
-            Err(e) => println!("mirror err {e}"),
         }
     }
+
+    // ---- random single documents
+    let n_random = tier.pick(6_000, 80_000);
+    par_range(n_random, |i| {
+        let mut rng = Rng::stream(run.seed, i as u64);
+        let Some(b) = random_single(&run, &mut rng) else { return };
+        run.count("random_docs", 1);
+        if !b.decoys.is_empty() {
+            run.count("random_docs_with_decoy_keys", 1);
+        }
+        let chunk = *rng.pick(&[1usize, 3, 7, 64, 4096]);
+        run_single(&run, &b, chunk, true, both, None);
+        if i % 1499 == 0 {
+            run.sample(|| json!({"doc": b.doc, "violated": b.viol, "arrivals": b.arrivals.iter().map(|(k, v)| (k.clone(), v.name())).collect::<BTreeMap<_, _>>()}));
+        }
+    });
+
+    // ---- streams
+    let n_streams = tier.pick(3_000, 30_000);
+    par_range(n_streams, |i| {
+        let mut rng = Rng::stream(run.seed ^ 0x5712_EA00, i as u64);
+        let k = rng.range(1, 5);
+        let mut docs = Vec::new();
+        // bias: make clean documents common enough that every count of failing documents 0..k occurs
+        let clean_bias = rng.below(3);
+        for _ in 0..k {
+            let mut pr = random_params(&mut rng);
+            pr.p_decoy = 0;
+            if clean_bias == 0 || (clean_bias == 1 && rng.bool()) {
+                pr.p_invalid = 0;
+                if rng.bool() {
+                    pr.kit = Kit::None;
+                }
+            }
+            let ro = random_ro(&mut rng);
+            let g = Gen::new(&mut rng, pr, None).gen_root();
+            match build(&run, g, &ro) {
+                Some(b) => docs.push(b),
+                None => return,
+            }
+        }
+        let mut text = String::new();
+        let lead = rng.bool();
+        for (j, d) in docs.iter().enumerate() {
+            if j > 0 || lead {
+                text.push_str("---\n");
+            }
+            text.push_str(&d.doc);
+            if rng.chance(1, 6) {
+                text.push_str("...\n");
+            }
+        }
+        match reftree::parse_stream(&text) {
+            Ok(ds) if ds.len() == k => {}
+            _ => {
+                run.inconclusive("generator-invalid: stream not parsed as k documents by the raw parser");
+                return;
+            }
+        }
+        let s = StreamBuilt {
+            text,
+            viols: docs.iter().map(|d| d.viol.clone()).collect(),
+            arrivals: docs.iter().map(|d| d.arrivals.clone()).collect(),
+        };
+        run.count("stream_cases", 1);
+        run.count("stream_documents", k as u64);
+        let chunk = *rng.pick(&[1usize, 5, 64, 4096]);
+        run_stream(&run, &s, chunk, both);
+        if i % 997 == 0 {
+            run.sample(|| json!({"stream": s.text, "violated_per_document": s.viols}));
+        }
+    });
+
+    let fin = Finish::new(
+        "a case (document, validation crate) is non-trivial when >= 1 constraint is violated or >= 1 validated value arrives through an alias / aliased struct / aliased list / merge; streams: >= 1 failing document; distinct by hash(text, crate)",
+    )
+    .exhaustive(format!(
+        "every subset of violated validated leaves ({}) x 6 delivery templates (direct block, direct flow, every leaf through a scalar alias, merge from valid records, merge from invalid records, mixed aliases from a fixed PRNG stream) x both validation crates x all single-document entry points (str, slice, reader; `_with_options` entry points with default / with_snippet=false / crop_radius 0 / crop_radius 5 — thorough: all four on every document, quick: one per document in rotation)",
+        scope.join("; ")
+    ))
+    .assume("the raw saphyr-parser event stream confirms every generated document (render_checked)")
+    .assume("model guards: plain from_str value == generator's intended value, validation crate's verdict on the plain value == chosen set, mirror (Spanned) parse has a location for every violated leaf; otherwise the case is inconclusive")
+    .assume("definition site is only exposed by the snippet rendering (value_comes_from_the_anchor) and by Error::locations() for the first entry; reader entry points render without snippets, so for them the definition site of the 2nd.. issue is not observable (counted as unspecified)")
+    .assume("decoy keys: when an unknown key matches the Rust field name at an earlier lookup pass than the real key the reported location is unspecified; on a tie the location may be unknown but must not be wrong")
+    .min_nontrivial(if tier == Tier::Quick { 5_000 } else { 50_000 });
+    run.finish(fin);
 }
